@@ -21,5 +21,6 @@ func TestWorker(t *testing.T) {
 		"C19": checkC19,
 		"C20": checkC20,
 		"C11": checkC11,
+		"C12": checkC12,
 	})
 }
